@@ -19,6 +19,9 @@ type diffCase struct {
 	Ops     []bt.Op  `json:"ops"`
 }
 
+// c17LastCode: status of the last request executed by a diffWorld (first engine).
+var c17LastCode string
+
 type diffWorld struct {
 	engines []string
 	drvs    []*bt.Driver
@@ -64,6 +67,9 @@ func (w *diffWorld) step(o *bt.Op, check bool) (string, string) {
 	var first bt.Resp
 	for i, d := range w.drvs {
 		got := d.Apply(o)
+		if i == 0 {
+			c17LastCode = got.Code
+		}
 		if !check {
 			continue
 		}
@@ -154,6 +160,7 @@ func c17Alphabet() []bt.Op {
 		put("a", bt.Mut{Kind: "delrow"}),
 		put("b", mdelcol("g", "q")),
 		put("a", mset("f", "q", 1500, "bad")),
+		put("a", mset("f", "half", 1000, "applied"), mset("nofam", "q", 1000, "then rejected")), // rejected after its first mutation was applied in memory
 		{Kind: "MutateRows", Table: tblT, Entries: []bt.Entry{{Key: []byte("a"), Muts: []bt.Mut{mset("f", "q", 3000, "m")}}, {Key: []byte("b"), Muts: []bt.Mut{mset("nofam", "q", 1000, "m")}}, {Key: []byte("d"), Muts: []bt.Mut{mset("g", "q", 1000, "m")}}}},
 		{Kind: "CheckAndMutate", Table: tblT, Key: []byte("a"), Pred: re("fam_re", "g"), TrueM: []bt.Mut{mset("f", "cam", 1000, "t")}, FalseM: []bt.Mut{mset("g", "cam", 1000, "f")}},
 		{Kind: "RMW", Table: tblT, Key: []byte("b"), Rules: []bt.Rule{{Fam: "f", Qual: []byte("n"), IsInc: true, Inc: 1}, {Fam: "g", Qual: []byte("q"), Append: []byte("+")}}},
@@ -248,10 +255,16 @@ func runC17(c *fw.Ctx) {
 							c.Sample(map[string]interface{}{"engines": p.engines, "program": bt.OpsString(ops)})
 						}
 					}
-					if seen[h] {
+					dk := h
+					if destructiveOp(&alpha[k]) || (c17LastCode != "OK" && multiStepOp(&alpha[k])) {
+						// see btSeq.Run: what a wholesale removal leaves behind inside ONE engine (a cache, a stale handle)
+						// is in no dump; such histories are kept apart by their last two requests
+						dk = fw.Hash(fmt.Sprint(h), "after", alpha[k].String(), bt.OpsString(ops[max(0, len(ops)-2):len(ops)-1]))
+					}
+					if seen[dk] {
 						continue
 					}
-					seen[h] = true
+					seen[dk] = true
 					if depth < p.depth {
 						next = append(next, ns)
 					}
